@@ -2,7 +2,9 @@
   `generateCode` on a registry whose class names were already converted by an earlier rendering.
 -/
 import J2M.Proofs.Render2Level
+import J2M.Proofs.PrepNames
 namespace J2M.Rend2
+open J2M.PrepNames
 
 /-! ## 11. `generateCode` in terms of `renderLevel` / `renderGens` -/
 
@@ -22,26 +24,32 @@ def names0 (g : Graph) : NameMap := g.models.map (fun m => (m.idx, m.name))
 theorem generateCode_eq (c : RenderCfg) (o : RenderOracles) (g : Graph) (roots : List Node) (inj : List (String × String))
     (pre : Option String) :
     generateCode c o g roots inj pre =
-      (renderLevel c o g inj (g.models.length + 2) (names0 g) roots >>= fun r =>
+      (prepareNames c o (names0 g) roots >>= fun N0 =>
+        renderLevel c o g inj (g.models.length + 2) N0 roots >>= fun r =>
         renderGens c o g inj r.1 r.2.2 >>= fun rs => pure (finishText pre r.2.1 rs, r.1)) := by
   unfold generateCode
   rfl
 
+/-- `generate_code` succeeds iff the preparation of the class names succeeds (`N0`), `_generate_code` succeeds from
+    the prepared names, and the top-level classes can be rendered -/
 theorem generateCode_ok {c : RenderCfg} {o : RenderOracles} {g : Graph} {roots : List Node} {inj : List (String × String)}
     {pre : Option String} {text : String} {F : NameMap} :
     generateCode c o g roots inj pre = .ok (text, F) ↔
-      ∃ imps1 gens rs, renderLevel c o g inj (g.models.length + 2) (names0 g) roots = .ok (F, imps1, gens) ∧
+      ∃ N0 imps1 gens rs, prepareNames c o (names0 g) roots = .ok N0 ∧
+        renderLevel c o g inj (g.models.length + 2) N0 roots = .ok (F, imps1, gens) ∧
         renderGens c o g inj F gens = .ok rs ∧ text = finishText pre imps1 rs := by
   rw [generateCode_eq]
   simp only [bind_eq_ok]
   constructor
-  · rintro ⟨⟨N, imps1, gens⟩, h1, rs, h2, h3⟩
+  · rintro ⟨N0, h0, ⟨N, imps1, gens⟩, h1, rs, h2, h3⟩
     simp only [pure, Except.pure] at h3
     injection h3 with h3; injection h3 with h3 h4
     subst h4
-    exact ⟨imps1, gens, rs, h1, h2, h3.symm⟩
-  · rintro ⟨imps1, gens, rs, h1, h2, h3⟩
-    exact ⟨(F, imps1, gens), h1, rs, h2, by subst h3; rfl⟩
+    exact ⟨N0, imps1, gens, rs, h0, h1, h2, h3.symm⟩
+  · rintro ⟨N0, imps1, gens, rs, h0, h1, h2, h3⟩
+    exact ⟨N0, h0, (F, imps1, gens), h1, rs, h2, by subst h3; rfl⟩
+
+theorem names0_length (g : Graph) : (names0 g).length = g.models.length := by simp [names0]
 
 /-! ## 12. graphs that differ only in the recorded names -/
 
@@ -113,34 +121,51 @@ theorem names0_keys (g : Graph) : (names0 g).map (·.1) = g.models.map (·.idx) 
 
 /-! ## 13. rendering again -/
 
-/-- **generateCode_again**: if a rendering of `g` succeeded with final names `F` on a ready structure, and `F` is
-    fixed by the conversions of the structure, then rendering any registry of the same shape that carries the names
-    `F` gives the same text and the same names -/
+/-- a successful rendering: the pre-order walk of the structure succeeds, and lists every model of the structure
+    exactly once (otherwise the `while True` loop of `_prepare_class_names` does not end) -/
+theorem generateCode_preorder {c : RenderCfg} {o : RenderOracles} {g : Graph} {roots : List Node}
+    {inj : List (String × String)} {pre : Option String} {text : String} {F : NameMap}
+    (h : generateCode c o g roots inj pre = .ok (text, F)) :
+    ∃ idxs, preorder (g.models.length + 2) roots = .ok idxs ∧ idxs.Nodup ∧ idxs.Perm (postL roots) := by
+  rw [generateCode_ok] at h
+  obtain ⟨N0, _, _, _, h0, _, _, _⟩ := h
+  obtain ⟨idxs, N1, hidx, _, hd⟩ := prepareNames_ok.mp h0
+  rw [names0_length] at hidx
+  exact ⟨idxs, hidx, ((nodup_map_iff _ _).mp (dedupLoop_nodup _ _ _ hd)).1, preorder_perm _ _ _ hidx⟩
+
+theorem generateCode_post_nodup {c : RenderCfg} {o : RenderOracles} {g : Graph} {roots : List Node}
+    {inj : List (String × String)} {pre : Option String} {text : String} {F : NameMap}
+    (h : generateCode c o g roots inj pre = .ok (text, F)) : (postL roots).Nodup := by
+  obtain ⟨idxs, _, hnd, hp⟩ := generateCode_preorder h
+  exact hp.nodup_iff.mp hnd
+
+/-- **generateCode_again**: if a rendering of `g` succeeded with final names `F` on a ready structure, `F` is
+    fixed by the conversions of the structure and the names `F` of the classes of the structure are pairwise distinct
+    (so that `_prepare_class_names` leaves `F` as it is), then rendering any registry of the same shape that carries
+    the names `F` gives the same text and the same names -/
 theorem generateCode_again {c : RenderCfg} {o : RenderOracles} {g g' : Graph} {roots : List Node}
     {inj : List (String × String)} {pre : Option String} {text : String} {F : NameMap}
     (h : generateCode c o g roots inj pre = .ok (text, F))
     (hready : ReadyL (refsOf g inj) [] roots)
     (hfix : FixedOn c o F (postL roots))
+    (hd : DistinctOn F (postL roots))
     (hshape : SameShape g' g) (hn0 : names0 g' = F) :
     generateCode c o g' roots inj pre = .ok (text, F) := by
+  obtain ⟨idxs, hidx, _, _⟩ := generateCode_preorder h
+  have hpn := generateCode_post_nodup h
   rw [generateCode_ok] at h ⊢
-  obtain ⟨imps1, gens, rs, h1, h2, h3⟩ := h
+  obtain ⟨N0, imps1, gens, rs, h0, h1, h2, h3⟩ := h
   have hp := renderLevel_ready c o g inj F _ _ _ [] _ _ _ h1 hready (fun _ _ => rfl)
-  refine ⟨imps1, gens, rs, ?_, ?_, h3⟩
-  · rw [hn0, renderLevel_shape c o hshape, hshape.1, renderLevel_fixed c o g inj F _ _ hfix, hp]
+  obtain ⟨k1, _, _, _⟩ := renderLevel_frame c o g inj _ _ _ _ _ _ h1
+  have hlen : F.length = g.models.length := by
+    have := congrArg List.length (k1.trans (prepareNames_same_keys h0))
+    simpa [names0_length] using this
+  have hprep : prepareNames c o F roots = .ok F :=
+    prepareNames_fixed (by rw [hlen]; exact hidx) hfix ((nodup_map_iff _ _).mpr ⟨hpn, hd⟩)
+  refine ⟨F, imps1, gens, rs, by rw [hn0]; exact hprep, ?_, ?_, h3⟩
+  · rw [renderLevel_shape c o hshape, hshape.1, renderLevel_fixed c o g inj F _ _ hfix, hp]
     rfl
   · rw [renderGens_shape c o hshape, h2]
-
-/-- `StableOn c o F is`: the recorded name of every `i ∈ is` is a fixed point of `convert_class_name` -/
-def StableOn (c : RenderCfg) (o : RenderOracles) (F : NameMap) (is : List String) : Prop :=
-  ∀ i ∈ is, ∀ n, lookup F i = some n → convertClassName c o n = .ok n
-
-theorem fixedOn_of_stable {c : RenderCfg} {o : RenderOracles} {F : NameMap} {is : List String}
-    (hnd : (F.map (·.1)).Nodup) (hsome : ∀ i ∈ is, ∃ n, lookup F i = some n) (hs : StableOn c o F is) :
-    FixedOn c o F is := by
-  intro i hi
-  obtain ⟨n, hn⟩ := hsome i hi
-  rw [convertNameAt_eq hn (hs i hi n hn), set_same hnd hn]
 
 /-- after a successful rendering every index of the structure has a name, produced by `convert_class_name` -/
 theorem generateCode_converted {c : RenderCfg} {o : RenderOracles} {g : Graph} {roots : List Node}
@@ -150,23 +175,88 @@ theorem generateCode_converted {c : RenderCfg} {o : RenderOracles} {g : Graph} {
     (∀ j, j ∉ postL roots → lookup F j = lookup (names0 g) j) ∧
     ∀ i ∈ postL roots, ∃ n₀ n, convertClassName c o n₀ = .ok n ∧ lookup F i = some n := by
   rw [generateCode_ok] at h
-  obtain ⟨imps1, gens, rs, h1, _, _⟩ := h
+  obtain ⟨N0, imps1, gens, rs, h0, h1, _, _⟩ := h
   obtain ⟨k, f, cv, _⟩ := renderLevel_frame c o g inj _ _ _ _ _ _ h1
-  exact ⟨by rw [k, names0_keys], f, cv⟩
+  exact ⟨by rw [k, prepareNames_same_keys h0, names0_keys],
+    fun j hj => by rw [f j hj, prepareNames_outside h0 hj], cv⟩
 
 /-- **render_twice (general form)**: rendering the registry left behind by a successful rendering gives the same
-    text and the same names, when the structure is ready and the converted names are stable -/
+    text and the same names, when the structure is ready, the converted names are stable and pairwise distinct -/
 theorem render_twice_gen {c : RenderCfg} {o : RenderOracles} {g : Graph} {roots : List Node}
     {inj : List (String × String)} {pre : Option String} {text : String} {F : NameMap}
     (hnd : (g.models.map (·.idx)).Nodup)
     (h : generateCode c o g roots inj pre = .ok (text, F))
     (hready : ReadyL (refsOf g inj) [] roots)
-    (hs : StableOn c o F (postL roots)) :
+    (hs : StableOn c o F (postL roots)) (hd : DistinctOn F (postL roots)) :
     generateCode c o (withNames g F) roots inj pre = .ok (text, F) := by
   obtain ⟨hk, _, hcv⟩ := generateCode_converted h
   apply generateCode_again h hready
   · exact fixedOn_of_stable (hk ▸ hnd) (fun i hi => by obtain ⟨_, n, _, hn⟩ := hcv i hi; exact ⟨n, hn⟩) hs
+  · exact hd
   · exact withNames_shape g F
   · exact names0_withNames hk hnd
+
+/-! ## 14. conversion that leaves the prepared names alone -/
+
+/-- if `convert_class_name` leaves the prepared names of the structure alone, the rendering does not change them -/
+theorem generateCode_stable_lookup {c : RenderCfg} {o : RenderOracles} {g : Graph} {roots : List Node}
+    {inj : List (String × String)} {pre : Option String} {text : String} {F N0 : NameMap}
+    (h : generateCode c o g roots inj pre = .ok (text, F))
+    (hN0 : prepareNames c o (names0 g) roots = .ok N0) (hs : StableOn c o N0 (postL roots)) :
+    ∀ j, lookup F j = lookup N0 j := by
+  rw [generateCode_ok] at h
+  obtain ⟨N0', imps1, gens, rs, h0, h1, _, _⟩ := h
+  cases hN0.symm.trans h0
+  exact convAll_stable_lookup _ _ _ hs (renderLevel_names _ _ _ _ _ _ _ _ _ _ h1)
+
+/-- … hence the final class names of the structure are pairwise distinct (and every class has one) -/
+theorem generateCode_names_nodup {c : RenderCfg} {o : RenderOracles} {g : Graph} {roots : List Node}
+    {inj : List (String × String)} {pre : Option String} {text : String} {F N0 : NameMap}
+    (h : generateCode c o g roots inj pre = .ok (text, F))
+    (hN0 : prepareNames c o (names0 g) roots = .ok N0) (hs : StableOn c o N0 (postL roots)) :
+    ((postL roots).map (nameOf F)).Nodup := by
+  have e : (postL roots).map (nameOf F) = (postL roots).map (nameOf N0) :=
+    List.map_congr_left (fun j _ => generateCode_stable_lookup h hN0 hs j)
+  rw [e]
+  exact prepareNames_nodup_post hN0
+
+/-- **generateCode_again_prepared**: if the conversion leaves the prepared names alone, the rendering ends with the
+    prepared names, and rendering any registry of the same shape that carries these names gives the same text and
+    names — for every structure (no readiness condition: no class is rendered with a name that changes later) -/
+theorem generateCode_again_prepared {c : RenderCfg} {o : RenderOracles} {g g' : Graph} {roots : List Node}
+    {inj : List (String × String)} {pre : Option String} {text : String} {F N0 : NameMap}
+    (hnd : (g.models.map (·.idx)).Nodup)
+    (h : generateCode c o g roots inj pre = .ok (text, F))
+    (hN0 : prepareNames c o (names0 g) roots = .ok N0) (hs : StableOn c o N0 (postL roots))
+    (hshape : SameShape g' g) (hn0 : names0 g' = F) :
+    F = N0 ∧ generateCode c o g' roots inj pre = .ok (text, F) := by
+  obtain ⟨idxs, hidx, _, _⟩ := generateCode_preorder h
+  rw [generateCode_ok] at h ⊢
+  obtain ⟨N0', imps1, gens, rs, h0, h1, h2, h3⟩ := h
+  cases hN0.symm.trans h0
+  have hk0 : N0.map (·.1) = g.models.map (·.idx) := by rw [prepareNames_same_keys h0, names0_keys]
+  have e : F = N0 := convAll_stable (hk0 ▸ hnd) hs (renderLevel_names _ _ _ _ _ _ _ _ _ _ h1)
+  subst e
+  obtain ⟨_, _, cv, _⟩ := renderLevel_frame c o g inj _ _ _ _ _ _ h1
+  have hfix : FixedOn c o F (postL roots) :=
+    fixedOn_of_stable (hk0 ▸ hnd) (fun i hi => by obtain ⟨_, n, _, hn⟩ := cv i hi; exact ⟨n, hn⟩) hs
+  have hlen : F.length = g.models.length := by
+    have := congrArg List.length hk0
+    simpa using this
+  have hprep : prepareNames c o F roots = .ok F :=
+    prepareNames_fixed (by rw [hlen]; exact hidx) hfix (prepareNames_nodup_post h0)
+  refine ⟨rfl, F, imps1, gens, rs, by rw [hn0]; exact hprep, ?_, ?_, h3⟩
+  · rw [renderLevel_shape c o hshape, hshape.1]; exact h1
+  · rw [renderGens_shape c o hshape, h2]
+
+/-- **render_twice_prepared** -/
+theorem render_twice_prepared {c : RenderCfg} {o : RenderOracles} {g : Graph} {roots : List Node}
+    {inj : List (String × String)} {pre : Option String} {text : String} {F N0 : NameMap}
+    (hnd : (g.models.map (·.idx)).Nodup)
+    (h : generateCode c o g roots inj pre = .ok (text, F))
+    (hN0 : prepareNames c o (names0 g) roots = .ok N0) (hs : StableOn c o N0 (postL roots)) :
+    F = N0 ∧ generateCode c o (withNames g F) roots inj pre = .ok (text, F) := by
+  obtain ⟨hk, _, _⟩ := generateCode_converted h
+  exact generateCode_again_prepared hnd h hN0 hs (withNames_shape g F) (names0_withNames hk hnd)
 
 end J2M.Rend2
